@@ -117,10 +117,13 @@ VARIANTS = {
     "v_ib": ("x: int, y: bool", "int"), "v_ni": ("x: nat, y: int", "int"), "v_fb": ("x: float, y: bool", "int"),
     "v_tfb": ("x: tuple[float, bool]", "int"), "v_tni": ("x: tuple[nat, int]", "int"),
 }
+# variants whose Python function name is the same (`conv`), defined in different scopes: the set is a list of definitions, not of names
+SAME_NAME = {"conv_i": ("x: int", "int"), "conv_f": ("x: float", "int"), "conv_t": ("x: tuple[int, int]", "int")}
 NESTED = {"ovA": ("v_two", "v_tup"), "ovB": ("v_bool", "v_nat")}      # overload sets used as variants of other sets
 SETS = [("ovA", "v_float"), ("v_float", "ovA", "v_int"), ("ovB", "ovA", "v_gen"), ("v_int", "v_float"), ("v_float", "v_int"), ("v_gen", "v_int"), ("v_int", "v_gen"), ("v_two", "v_int", "v_float"), ("v_nat", "v_int", "v_float"),
         ("v_bool", "v_float", "v_gen"), ("v_none", "v_two_f", "v_two"), ("v_ret_b", "v_ret_f", "v_int"), ("v_tup", "v_gen"), ("v_float", "v_nat", "v_tup", "v_none"),
-        ("v_ib", "v_ni"), ("v_fb", "v_two"), ("v_tfb", "v_tup"), ("v_ib", "v_two_f", "v_ni"), ("v_tfb", "v_tni", "v_gen")]
+        ("v_ib", "v_ni"), ("v_fb", "v_two"), ("v_tfb", "v_tup"), ("v_ib", "v_two_f", "v_ni"), ("v_tfb", "v_tni", "v_gen"),
+        ("conv_i", "conv_f"), ("conv_f", "conv_i", "conv_t"), ("conv_t", "v_bool", "conv_i")]
 ARGS = ["1", "1.5", "True", "n", "i", "(1, 2)", "1, 2", "i, 1.5", "", "-1", "1, True", "n, 1", "(1, True)", "(n, 2)"]
 POSITIONS = ["synth", "check_int", "check_float", "check_bool"]
 _SH, _NSH = (int(x) for x in os.environ.get("VERIF_C15_SHARD", "0/1").split("/"))
@@ -138,6 +141,8 @@ def _module_text():
     out = ["from guppylang import guppy\nfrom guppylang.std.builtins import nat\nT = guppy.type_var('T')\n\n"]
     for name, (params, ret) in VARIANTS.items():
         out.append(f"@guppy.declare\ndef {name}({params}) -> {ret}: ...\n\n")
+    for name, (params, ret) in SAME_NAME.items():
+        out.append(f"def _mk_{name}():\n    @guppy.declare\n    def conv({params}) -> {ret}: ...\n    return conv\n\n{name} = _mk_{name}()\n\n")
     for nm, vs in NESTED.items():
         out.append(f"@guppy.overload({', '.join(vs)})\ndef {nm}(): ...\n\n")
     for si, s in enumerate(SETS):
